@@ -96,6 +96,7 @@ func runC09(w *World, r *Report) {
 	c09PendingCheck(w, r, ef)
 	c09Lock(w, r)
 	c09RecordsUnderLock(w, r)
+	c09CreateErrorKept(w, r)
 	c09Immutable(w, r)
 	c09ReportLock(w, r)
 	c09ReplaceOnlyAfterUninstall(w, r)
@@ -934,4 +935,94 @@ func c09LazyInit(w *World, r *Report) {
 		}
 	}
 	r.Check(bad == "", "C09/LAZY-INIT", "lazyClient", w.Pos(initFn.Pos()), "the shared client is created under sync.Once and read only afterwards", bad+": concurrent first uses of one storage backend race on the client")
+}
+
+// c09CreateErrorKept: losing the race for a revision number is reported: on the error edge of
+// Storage.Create no return hands back nil — neither the constant nor a wrapped variable that is known
+// to be nil at that point (errors.Wrap(nil, …) is nil).
+func c09CreateErrorKept(w *World, r *Report) {
+	r.Rule("C09/CREATE-ERROR-KEPT", "in pkg/action, on the error edge of Storage.Create every reachable return carries a non-nil error: not the nil constant, and not a wrap of a variable that is nil there", 3)
+	n := 0
+	for _, fn := range w.FuncsIn("pkg/action") {
+		if strings.HasSuffix(w.FileOf(fn), "_test.go") {
+			continue
+		}
+		var g *Graph
+		for _, c := range callInstrs(fn) {
+			f, _ := calleeOf(c.Common())
+			if f == nil || FuncName(f) != "(*pkg/storage.Storage).Create" {
+				continue
+			}
+			e := errResult(c)
+			if e == nil {
+				continue
+			}
+			if g == nil {
+				g = FullGraph(fn)
+			}
+			_, bad := nilTestEdges(e)
+			if len(bad) == 0 {
+				continue // returned as it is (tail call) or handed on
+			}
+			n++
+			r.Fn(FuncName(fn))
+			viol := ""
+			okE, _ := nilTestEdges(e)
+			for _, b := range fn.Blocks {
+				if len(b.Instrs) == 0 {
+					continue
+				}
+				ret, ok := b.Instrs[len(b.Instrs)-1].(*ssa.Return)
+				if !ok || len(ret.Results) == 0 {
+					continue
+				}
+				ev := ret.Results[len(ret.Results)-1]
+				if !isErrorType(ev.Type()) {
+					continue
+				}
+				// results spilled to slots (named results, or a defer in the function): what this block stored
+				if ld, isLd := ev.(*ssa.UnOp); isLd && ld.Op == token.MUL {
+					if slot, isSlot := ld.X.(*ssa.Alloc); isSlot {
+						var last ssa.Value
+						for _, in := range b.Instrs {
+							if st, isSt := in.(*ssa.Store); isSt && st.Addr == ssa.Value(slot) {
+								last = st.Val
+							}
+						}
+						if last == nil {
+							continue
+						}
+						ev = last
+					}
+				}
+				reach := false
+				for _, be := range bad {
+					if ex, _ := g.PathExists(IPos{be.To(), -1}, posOf(ret), Avoid{StartPrev: be.From}.withEdges(okE...)); ex {
+						reach = true
+					}
+				}
+				if !reach {
+					continue
+				}
+				v := ev
+				for d := 0; d < 4; d++ {
+					inner, ok := nilPreservingArg(v)
+					if !ok {
+						break
+					}
+					v = inner
+				}
+				if forwardAliases(e)[v] || v == e {
+					continue
+				}
+				if isNilConst(v) || g.knownNilAt(v, b) {
+					viol = w.InstrPos(ret)
+				}
+			}
+			r.Check(viol == "", "C09/CREATE-ERROR-KEPT", siteKey(Site{fn, c, posOf(c)}), w.InstrPos(c), "a failed Storage.Create ends in a non-nil error", "after Storage.Create failed the function can return nil at "+viol+" (the constant, or a wrap of a variable that is nil there): the operation that lost the race for the revision number goes on as if it had created the record and overwrites the winner's")
+		}
+	}
+	if n == 0 {
+		r.Unk("C09/CREATE-ERROR-KEPT", "no-site", "-", "no tested Storage.Create call in pkg/action")
+	}
 }
